@@ -685,6 +685,35 @@ func c14ImportsException(c *Ctx, fn *ssa.Function, ml mapLoop) {
 	// premise 3: the only readers of MergedOutput.Imports hand it to buildImportDecl
 	ok3 := true
 	nReads := 0
+	// the list is only measured, handed to buildImportDecl, or handed on to a helper of the package that does the same with
+	// its parameter
+	var usesOK func(v ssa.Value, d int) bool
+	usesOK = func(v ssa.Value, d int) bool {
+		if v.Referrers() == nil {
+			return true
+		}
+		for _, r := range *v.Referrers() {
+			switch x := r.(type) {
+			case *ssa.DebugRef:
+			case *ssa.Call:
+				cal := x.Common().StaticCallee()
+				if calleeOf(x.Common()) == "builtin len" || (cal != nil && cal == bid) {
+					continue
+				}
+				if cal == nil || cal.Pkg == nil || cal.Pkg.Pkg.Path() != migPkg || len(cal.Blocks) == 0 || d >= 3 {
+					return false
+				}
+				for i, a := range x.Common().Args {
+					if a == v && (i >= len(cal.Params) || !usesOK(cal.Params[i], d+1)) {
+						return false
+					}
+				}
+			default:
+				return false
+			}
+		}
+		return true
+	}
 	for _, f := range migFuncs(L) {
 		for _, b := range f.Blocks {
 			for _, in := range b.Instrs {
@@ -697,16 +726,8 @@ func c14ImportsException(c *Ctx, fn *ssa.Function, ml mapLoop) {
 					continue
 				}
 				nReads++
-				for _, r := range *u.Referrers() {
-					switch x := r.(type) {
-					case *ssa.Call:
-						cal := x.Common().StaticCallee()
-						if calleeOf(x.Common()) != "builtin len" && (cal == nil || cal != bid) {
-							ok3 = false
-						}
-					default:
-						ok3 = false
-					}
+				if !usesOK(u, 0) {
+					ok3 = false
 				}
 			}
 		}
